@@ -22,6 +22,12 @@ def text_pool(rng, corp, n_valid=4, n_invalid=3):
     pool.append(v.replace(" ", ""))
     pool.append(v.swapcase())
     pool.append(v[:-1])
+    pool.append(v[1:-1])
+    pool.append(v[1:])
+    # parenthesised groups at both ends whose outer parentheses do NOT pair with each other, and the peeled form
+    a_, b_ = rng.choice(["a", "x + 1", "2y", "4"]), rng.choice(["b", "x - 1", "3", "z^2"])
+    grp = f"({a_}){rng.choice(['+', ' * ', '', ' - '])}({b_})"
+    pool += [grp, grp[1:-1], "(" + grp + ")", "((" + a_ + "))", "(" + a_ + ")"]
     # padding inside a token (between two digits, inside a function name) changes the tokens
     for _ in range(2):
         i = rng.randrange(len(v) + 1) if v else 0
@@ -247,6 +253,8 @@ def deep_under_default_limit(rec, prop):
     chain = " + ".join(["x"] * 420)
     prod = " * ".join(["y"] * 380)
     texts = ["sgn(" + chain, "sgn(" + prod, "2 * sgn(1 - " + chain, "(" + chain, chain + " +", "sgn(" + chain + ")", chain + " = " + prod + ")", "sgn(" + chain + " 4"]
+    flat = " + ".join(f"{(i % 9) + 1}{'xyz'[i % 3]}" for i in range(900))          # ~3600 tokens, nesting depth 0
+    texts += [flat + " + 2 *", flat + " -", flat + " * /", flat + " + 4^-", "- - - " + flat, flat + " - - -", flat + " + (", flat + " + 2 /", flat + " = ", flat + " + 4^", flat + " 7"]
     old = sys.getrecursionlimit()
     for t in texts:
         p = ExpressionParser()
